@@ -65,17 +65,18 @@ def failing_drivers(stderr):
     return bad
 
 
-def build(ctx, d, profile, hooks, check_only=False):
+def build(ctx, d, profile, hooks, check_only=False, features=(), target=None):
     cmd = ["cargo", "check" if check_only else "build", "--offline"]
     if profile == "release":
         cmd.append("--release")
-    if hooks:
-        cmd += ["--features", "hooks"]
+    feats = (["hooks"] if hooks else []) + list(features)
+    if feats:
+        cmd += ["--features", ",".join(feats)]
     env = dict(common.ENV)
-    env["CARGO_TARGET_DIR"] = target_dir(ctx)
+    env["CARGO_TARGET_DIR"] = target or target_dir(ctx)
     with common.Lock("gendrv-build-%s" % ctx.tier):
         rc, out, err = common.sh(cmd, cwd=d, env=env, timeout=3600)
-    return rc, err, os.path.join(target_dir(ctx), "release" if profile == "release" else "debug", "gendrv")
+    return rc, err, os.path.join(target or target_dir(ctx), "release" if profile == "release" else "debug", "gendrv")
 
 
 def prepare(ctx, combos):
@@ -183,12 +184,13 @@ def run_native(ctx, binary, label, pid, episodes, max_ops, nshards=12, extra=())
             absorb(ctx, rep, label, pid)
 
 
-def run_miri(ctx, d, label, pid, flags, episodes, max_ops, modules, nshards=16, extra=()):
+def run_miri(ctx, d, label, pid, flags, episodes, max_ops, modules, nshards=16, extra=(), features=(), target=None, mine_all=False):
     env = dict(common.ENV)
     env["MIRIFLAGS"] = flags
-    env["CARGO_TARGET_DIR"] = target_dir(ctx)
+    env["CARGO_TARGET_DIR"] = target or target_dir(ctx)
+    feat = (["--features", ",".join(features)] if features else [])
     with common.Lock("gendrv-build-%s" % ctx.tier):
-        rc, out, err = common.sh(["cargo", "+nightly", "miri", "run", "--offline", "-q", "--", "--episodes", "0", "--modules", "none"], cwd=d, env=env, timeout=3600)
+        rc, out, err = common.sh(["cargo", "+nightly", "miri", "run", "--offline", "-q"] + feat + ["--", "--episodes", "0", "--modules", "none"], cwd=d, env=env, timeout=3600)
     if rc != 0:
         raise Inconclusive("Miri build of the generated-driver crate failed: %s" % "\n".join((err or "").splitlines()[-15:]))
     jobs = []
@@ -197,7 +199,7 @@ def run_miri(ctx, d, label, pid, flags, episodes, max_ops, modules, nshards=16, 
                 "--quiet-panics", "--readback-every", "2"] + list(extra)
         if modules:
             args += ["--modules", ",".join(modules)]
-        jobs.append((" ".join(args), ["cargo", "+nightly", "miri", "run", "--offline", "-q", "--"] + args, d, env))
+        jobs.append((" ".join(args), ["cargo", "+nightly", "miri", "run", "--offline", "-q"] + feat + ["--"] + args, d, env))
     clean = 0
     for (lab, rc, out, err, secs) in ctx.run_parallel(jobs, 5400):
         finding = common.classify_miri(err)
@@ -209,7 +211,7 @@ def run_miri(ctx, d, label, pid, flags, episodes, max_ops, modules, nshards=16, 
             kind, line, frame = finding
             # what Miri reports is memory safety of generated code + runtime: C07; leaks and
             # double frees are C06 matters as well
-            mine = pid == "C07" or (pid == "C06" and (kind == "leak" or "free" in line or "dangling" in line)) or (pid in ("C15", "C16") and label.endswith(pid))
+            mine = mine_all or pid == "C07" or (pid == "C06" and (kind == "leak" or "free" in line or "dangling" in line)) or (pid in ("C15", "C16") and label.endswith(pid))
             if mine:
                 ctx.violation("miri-" + kind, "[%s] %s | %s | run: %s" % (label, line, frame, lab),
                               "%s miri %s %s" % (pid, common.norm_miri(line)[:160], re.sub(r":\d+:\d+", "", frame)[:160]),
@@ -416,6 +418,31 @@ def run_c15(ctx):
         serde_mods = [m["module"] for m in manifest["modules"] if m["status"] == "emitted" and "serde" in m.get("fragments", "")]
         run_miri(ctx, d, "miri-C15", pid, "", 5, 30, serde_mods[:16], extra=["--caps", "0"])
     finish_coverage(ctx, manifest)
+
+
+def thread_half(ctx):
+    """Dynamic half of C14: records whose fields are all Send + Sync are shared by reference
+    between three threads and moved to another thread and back, natively and under Miri's data
+    race detector. The drivers are built with their `threads` feature for this."""
+    pid = "C14"
+    init(ctx)
+    d, manifest = emit(ctx)
+    after_prepare(ctx, manifest, pid)
+    tdir = os.path.join(common.WORK, "target-gendrv-threads-%s" % ctx.tier)
+    rc, err, binary = build(ctx, d, "dev", False, features=["threads"], target=tdir)
+    if rc != 0:
+        auto = [l for l in (err or "").splitlines() if "cannot be sent between threads" in l or "cannot be shared between threads" in l]
+        if auto:
+            ctx.violation("thread-safe-record-not-sendable-or-shareable", "the generated drivers, whose records hold only Send + Sync fields, do not compile with thread sharing enabled: %s" % auto[:2],
+                          "C14 converse drivers %s" % re.sub(r"\d+", "#", auto[0])[:160], {"stderr": (err or "")[-3000:], "crate": d})
+        else:
+            ctx.inconclusive.append("the thread-sharing build of the generated drivers failed for another reason: %s" % "\n".join((err or "").splitlines()[-8:]))
+        return
+    run_native(ctx, binary, "native-threads", pid, 100 if ctx.quick else 1500, 40, extra=["--threads"])
+    run_miri(ctx, d, "miri-threads", pid, SB, 3 if ctx.quick else 8, 25, miri_modules(manifest, 16 if ctx.quick else 40), extra=["--threads", "--no-serde", "--no-sweeps", "--caps", "0"],
+             features=["threads"], target=tdir, mine_all=True)
+    ctx.subruns.append({"engine": "gendrv with the `threads` feature", "operations": "3 threads read a shared record at once; a record is moved to another thread, read there and moved back",
+                        "oracles": ["field -> id model in every thread", "Miri data race detector", "ledger"]})
 
 
 def runtime_half(ctx, pid):
